@@ -81,6 +81,9 @@ JudgeP1(c, i, e) ==
   ELSE IF DiagBad(e.diag) THEN {}
   ELSE
   (IF e.bitsB # c.bits THEN {Mk(<<"C17">>, "mode in force differs")} ELSE {})
+  \cup      \* the origin is state that only ORG may change
+  (IF e.dolB # c.org THEN {Mk(<<"C16", "C03">>, "origin in force differs")}
+   ELSE IF s.k # "org" /\ e.dolA # e.dolB THEN {Mk(<<"C16", "C03">>, "a statement other than ORG changed the origin")} ELSE {})
   \cup
   CASE s.k = "label" -> IF e.val # e.locB \/ d # 0 \/ e.ocA # e.ocB THEN {Mk(<<"C03">>, "label value is not the location counter")} ELSE {}
     [] s.k \in {"equ", "equb", "cfg", "global", "extern"} ->
@@ -321,10 +324,11 @@ JudgeRel(e) ==
          LET AB == res[e.ab] IN
          IF ~(A.clean /\ B.clean) THEN {}
          ELSE IF ~AB.clean \/ AB.out # A.out \o B.out THEN {Mk("concatenation differs", <<e.a, e.b, e.ab>>)} ELSE {}
-    [] e.kind = "catany" ->  \* the same for runs that may carry per-statement diagnostics (a statement gosk reports and skips is skipped in
-                             \* A;B exactly as in A): only the three runs have to end normally
+    [] e.kind = "catany" ->  \* the same for runs that log per-statement messages although the statements are assembled (A has an image):
+                             \* only the three runs have to end normally.  (If A leaves no image - unsupported statements, or a policy
+                             \* of writing nothing after an error - nothing is claimed.)
          LET AB == res[e.ab] IN
-         IF A.status # "ok" \/ B.status # "ok" THEN {}
+         IF A.status # "ok" \/ B.status # "ok" \/ A.out = << >> THEN {}
          ELSE IF AB.status # "ok" \/ AB.out # A.out \o B.out THEN {Mk("concatenation differs", <<e.a, e.b, e.ab>>)} ELSE {}
     [] e.kind = "org" ->     \* b = a relocated by e.delta: same lengths; statements differ only where they embed absolute addresses
          IF ~(A.clean /\ B.clean) THEN (IF A.clean # B.clean THEN {Mk("outcome class differs", <<e.a, e.b>>)} ELSE {})
